@@ -119,7 +119,7 @@ func (c *ingestor) ingestBlock(batch db.KeyValueWriter, blockNumber uint64) (int
 		return 0, err
 	}
 
-	err = c.validateCount(
+	alreadyMigrated, err := c.validateCount(
 		blockNumber,
 		txCount,
 		len(blockTransactions.Indexes.Transactions),
@@ -127,6 +127,12 @@ func (c *ingestor) ingestBlock(batch db.KeyValueWriter, blockNumber uint64) (int
 	)
 	if err != nil {
 		return 0, err
+	}
+	if alreadyMigrated {
+		// The old entries are gone and the new blob is already in place (a previous run committed
+		// this range before it was interrupted). Writing the blob built from the now empty old
+		// buckets would overwrite the block's transactions with nothing.
+		return txCount, nil
 	}
 
 	return txCount, core.BlockTransactionsBucket.Put(batch, blockNumber, &blockTransactions)
@@ -137,11 +143,11 @@ func (c *ingestor) validateCount(
 	txCount int,
 	fetchedTxCount,
 	fetchedReceiptCount int,
-) error {
+) (alreadyMigrated bool, err error) {
 	if fetchedTxCount == 0 || fetchedReceiptCount == 0 {
 		has, err := core.BlockTransactionsBucket.Has(c.database, blockNumber)
 		if err != nil {
-			return err
+			return false, err
 		}
 		// Already migrated
 		if has {
@@ -149,23 +155,23 @@ func (c *ingestor) validateCount(
 				"skipping already migrated block",
 				zap.Uint64("blockNumber", blockNumber),
 			)
-			return nil
+			return true, nil
 		}
 		// Not migrated yet, no transactions found, while there are expected transactions
 		if txCount > 0 {
-			return errors.New("missing transactions and receipts")
+			return false, errors.New("missing transactions and receipts")
 		}
 	}
 
 	if fetchedTxCount != txCount {
-		return fmt.Errorf("invalid transactions: expected %d, got %d", txCount, fetchedTxCount)
+		return false, fmt.Errorf("invalid transactions: expected %d, got %d", txCount, fetchedTxCount)
 	}
 
 	if fetchedReceiptCount != txCount {
-		return fmt.Errorf("invalid receipts: expected %d, got %d", txCount, fetchedReceiptCount)
+		return false, fmt.Errorf("invalid receipts: expected %d, got %d", txCount, fetchedReceiptCount)
 	}
 
-	return nil
+	return false, nil
 }
 
 func extractValues(seq iter.Seq2[prefix.Entry[[]byte], error]) iter.Seq2[cbor.RawMessage, error] {
